@@ -223,6 +223,27 @@ def _block(stmts, top):
                 stmts = out
                 changed = True
                 break
+            # v = E1 ; v += E2  ->  v = E1 + E2      (a value built in two steps; E1 is a fresh value, not an alias)
+            if rest and isinstance(st, ast.Assign) and len(st.targets) == 1 and isinstance(st.targets[0], ast.Name) \
+                    and isinstance(st.value, (ast.Call, ast.List, ast.ListComp, ast.BinOp, ast.Constant, ast.JoinedStr)) \
+                    and isinstance(rest[0], ast.AugAssign) and isinstance(rest[0].op, ast.Add) and isinstance(rest[0].target, ast.Name) \
+                    and rest[0].target.id == st.targets[0].id \
+                    and not any(isinstance(x, ast.Name) and x.id == st.targets[0].id for x in ast.walk(rest[0].value)):
+                stmts = out + [ast.Assign(targets=st.targets, value=ast.BinOp(left=st.value, op=ast.Add(), right=rest[0].value),
+                                          lineno=st.lineno)] + rest[1:]
+                changed = True
+                break
+            # v = P + e ; P = v   ->   P += e ; v = P      (the read-modify-write of a table entry through a local)
+            if rest and isinstance(st, ast.Assign) and len(st.targets) == 1 and isinstance(st.targets[0], ast.Name) \
+                    and isinstance(st.value, ast.BinOp) and isinstance(st.value.op, (ast.Add, ast.Sub)) \
+                    and isinstance(st.value.left, (ast.Subscript, ast.Attribute)) \
+                    and isinstance(rest[0], ast.Assign) and len(rest[0].targets) == 1 and isinstance(rest[0].value, ast.Name) \
+                    and rest[0].value.id == st.targets[0].id and ast.dump(rest[0].targets[0]).replace("Store()", "Load()") == ast.dump(st.value.left):
+                aug = ast.AugAssign(target=rest[0].targets[0], op=st.value.op, value=st.value.right)
+                ali = ast.Assign(targets=[st.targets[0]], value=st.value.left, lineno=st.lineno)
+                stmts = out + [aug, ali] + rest[1:]
+                changed = True
+                break
             # v = [] ; for ...: v.append(e)
             if rest:
                 comp = _comprehension_of(st, rest[0])
@@ -375,10 +396,26 @@ def _pure_path(e):
     return False
 
 
+def _split_unpacking(fn):
+    """`a, b = t` with t a call-free path -> `a = t[0]; b = t[1]` (then ordinary aliases)."""
+    class _U(ast.NodeTransformer):
+        def visit_Assign(self, n):
+            if len(n.targets) == 1 and isinstance(n.targets[0], ast.Tuple) and all(isinstance(x, ast.Name) for x in n.targets[0].elts) \
+                    and _pure_path(n.value) and not isinstance(n.value, ast.Constant):
+                return [ast.Assign(targets=[ast.Name(x.id, ast.Store())],
+                                   value=ast.Subscript(value=copy.deepcopy(n.value), slice=ast.Constant(i), ctx=ast.Load()), lineno=n.lineno)
+                        for i, x in enumerate(n.targets[0].elts)]
+            return n
+    fn = _U().visit(fn)
+    ast.fix_missing_locations(fn)
+    return fn
+
+
 def _propagate_aliases(fn):
     """`v = t[0]` (a local bound once to a call-free path over names that are themselves bound once) is another name for that
     path: its uses are written out and the binding dropped."""
-    for _ in range(8):
+    fn = _split_unpacking(fn)
+    for _ in range(24):
         stores = {}
         for n in ast.walk(fn):
             if isinstance(n, ast.Name) and not isinstance(n.ctx, ast.Load):
@@ -446,6 +483,7 @@ def canonical(fn_node):
     for _ in range(6):
         fn = _Expr().visit(fn)
         fn = _Stmt().visit(fn)
+        fn = _propagate_aliases(fn)
         ast.fix_missing_locations(fn)
         cur = ast.dump(fn)
         if cur == prev:
